@@ -32,3 +32,22 @@ Theorem C05_outbox_of_writes : forall c ops, hist_ok ops -> forall o, In o (w_ou
   entry_at (w_hist (fst (run_ops c ops))) o.
 Proof. exact p_outbox_of_writes. Qed.
 Print Assumptions C05_outbox_of_writes.
+
+(* REMOVED ONLY AFTERWARDS. outbox.go purgeOutbox, for EVERY state (world, fault plan at every call of the cycle, lease and crash
+   flags) and every batch: in the trace, every DeleteOutboxEvent sits directly on top of "sender closed: ok" and "event sent: ok"
+   of the very same entry ([relay_ok], proofs/RelayFacts.v) — an entry whose NewSender / Send / Close failed, or after which the
+   cycle aborted, is never deleted *)
+From WF Require Import proofs.RelayFacts.
+Theorem C05_delete_only_after_send : forall l s, relay_ok (o_trace s) -> relay_ok (o_trace (snd (relay_entries l s))).
+Proof. exact relay_entries_ok. Qed.
+Print Assumptions C05_delete_only_after_send.
+
+(* what [relay_ok] says about a delete token *)
+Theorem C05_relay_ok_reads : forall t tr id a, relay_ok (t :: tr) -> t = TDelOut id a ->
+  exists o tr', tr = TCall KSC [] ROk [] :: TSend o ROk :: tr' /\ o_id o = id.
+Proof.
+  intros t tr id a H E. inversion H as [|t' tr' Hn Hr|o a' tr' Hr]; subst.
+  - exfalso. eapply Hn. reflexivity.
+  - inversion H0; subst. eexists _, _. split; reflexivity.
+Qed.
+Print Assumptions C05_relay_ok_reads.
